@@ -416,6 +416,11 @@ class Host:
         interrupted = False
         try:
             _run._unshare_network(self.tm_env, container_dir, app)
+        except FileExistsError:
+            # the kernel handed out a host port that an unfinished container of the same instance had before (its
+            # endpoint spec is still there): the start fails, the container is aborted and finished like any other
+            self.start_failed_on_reused_port = getattr(self, 'start_failed_on_reused_port', 0) + 1
+            interrupted = True
         except Kill:
             if not self.cut_fired:
                 raise
@@ -527,6 +532,9 @@ class Host:
                 raise HarnessError('_run.run returned without exec')
             except _Exec:
                 pass
+            except FileExistsError:
+                self.start_failed_on_reused_port = getattr(self, 'start_failed_on_reused_port', 0) + 1
+                interrupted = True
             except Kill:
                 if not self.cut_fired:
                     raise
